@@ -172,6 +172,14 @@ Proof.
 Qed.
 Print Assumptions C06_rem_against_root.
 
+(* FINDING (replayed on the implementation by the stream values-render, signature c06-rem-on-root-element):
+   on the root element itself rem is resolved against the initial 16px in every property, not only in font-size:
+   html { font-size: 10px; margin-left: 2rem } computes margin-left to 32px, CSS Values 3 5.1.1 says 20px *)
+Theorem C06_rem_on_root_element_refuted :
+  exists own v, ~ px_is (length (element_env true own own (1 # 2) (1 # 2)) None (LDim v Rem)) (v * own).
+Proof. exact rem_on_root_element_refuted. Qed.
+Print Assumptions C06_rem_on_root_element_refuted.
+
 (* absolute units: 1in = 96px = 72pt = 6pc = 2.54cm = 25.4mm = 101.6q *)
 Theorem C06_absolute_units e fs v u f :
   (to_pixels u = Some f -> px_is (length e fs (LDim v u)) (v * f)) /\
